@@ -1,6 +1,7 @@
 import PPProofs.Lemmas.ParseRename
 import PPProofs.Lemmas.SugarCheck
 import PPProofs.Lemmas.AndFlatten
+import PPProofs.Lemmas.HeapOps
 /-!
 # C12 — grammar objects have value semantics; operator sugar means what is documented
 
@@ -263,3 +264,211 @@ example : closedCheck exOK = true := by decide
 example : simCheck exOK exOK [(3, 3), (4, 4)] = true := by decide
 
 end PP.Parse
+
+/-! # in-place operations applied AFTER composition: the object graph as a heap
+
+`PPModel/Mod/HeapOps.lean` transcribes `copy()`, `ignore()`, `leave_whitespace()` / `ignore_whitespace()` as operations
+on a heap (elements + the identity of their `ignoreExprs` list objects).  The harness runs every real call of a
+generated history against these operations on the heap extracted from the live objects (driver: `heapMatch`), and
+evaluates `invCheck` on the live heaps.  The theorems say which expressions can NOT be affected by such a call. -/
+namespace PP.Heap
+open PP.Parse
+
+theorem resolve_get (h : Heap) (i : Nat) :
+    h.resolve[i]? = (h.objs[i]?).map (fun o => { o.node with ignore := ignoreOf h.cells o }) := by
+  unfold Heap.resolve resolveWith
+  rw [List.getElem?_map]
+
+/-- **general frame.**  If two tables agree on a set `E` of ids that is closed under "refers to" (sub-expressions and
+    ignorables), every element of `E` parses identically in both: all inputs, locations, flags, fuels.
+    (`frame` above is the special case "the second table is the first one plus appended nodes".) -/
+theorem agree_on_closed (g g' : Grammar) (E : Nat → Prop) (hsame : ∀ i, E i → g'[i]? = g[i]?)
+    (hin : ∀ i, E i → i < g.length) (hclosed : ∀ i nd, E i → g[i]? = some nd → ∀ c ∈ nd.children, E c)
+    (s : List Char) (f i : Nat) (hi : E i) (loc : Nat) (a c : Bool) :
+    parse g' s f i loc a c = parse g s f i loc a c := by
+  have hs : Sim g g' id E := by
+    refine ⟨?_, hclosed, ?_⟩
+    · intro i hi
+      have hlt : i < g.length := hin i hi
+      have hg : g[i]? = some g[i] := List.getElem?_eq_getElem hlt
+      refine ⟨g[i], g[i], hg, ?_, ?_⟩
+      · show g'[i]? = some g[i]
+        rw [hsame i hi]; exact hg
+      · rw [Node.mapIds_fix (ρ := id) (fun x _ => rfl)]
+    · intro i n1 es hi hg hk e he
+      have hE : E e := hclosed i n1 hi hg e (by unfold Node.children Kind.children; rw [hk]; simp [he])
+      show nameLenOf g e = nameLenOf g' e
+      unfold nameLenOf
+      rw [hsame e hE]
+  exact (parse_rename hs s f i hi loc a c).symm
+
+/-- **ignore_frame.**  `x.ignore(s)` — which pushes `s` into every element reachable from `x`, appending IN PLACE to
+    their `ignoreExprs` list objects — does not change how any expression `E` parses whose object graph is disjoint
+    from the elements reachable from `x`, PROVIDED no two elements hold the same list object (`NoAlias`, kept by every
+    constructor and by `copy()`: `copyOp_spec`; evaluated on the live objects by the driver: `invCheck`).
+    `D`: any set of elements containing `x` and closed under `recurse()`; `E`: closed under "refers to".
+    All inputs, locations, flags, fuels. -/
+theorem ignore_frame (h h' : Heap) (fuel x s : Nat) (hop : h.ignore fuel x s = some h') (hna : NoAlias h)
+    (D : Nat → Prop) (hD : SubClosed h.objs D) (hx : D x)
+    (E : Nat → Prop) (hin : ∀ i, E i → i < h.objs.length)
+    (hclosed : ∀ i nd, E i → h.resolve[i]? = some nd → ∀ c ∈ nd.children, E c)
+    (hdisj : ∀ i, E i → ¬ D i)
+    (inp : List Char) (f i : Nat) (hi : E i) (loc : Nat) (a c : Bool) :
+    parse h'.resolve inp f i loc a c = parse h.resolve inp f i loc a c := by
+  unfold Heap.ignore at hop
+  cases hc : ignorePush h.objs fuel h.cells x s with
+  | none => rw [hc] at hop; cases hop
+  | some c' =>
+    rw [hc] at hop
+    simp only [Option.some.injEq] at hop
+    subst hop
+    have hpush := ignorePush_frame h.objs D hD fuel h.cells x s c' hx hc
+    refine agree_on_closed h.resolve _ E ?_ (fun i hi => by unfold Heap.resolve resolveWith; simpa using hin i hi)
+      hclosed inp f i hi loc a c
+    intro i hiE
+    rw [resolve_get, resolve_get]
+    show Option.map _ h.objs[i]? = _
+    cases ho : h.objs[i]? with
+    | none => rfl
+    | some o =>
+      simp only [Option.map_some, Option.some.injEq]
+      have hfree : CellFree h.objs D o.cell := by
+        intro j oj hj hoj heq
+        have : j = i := hna j i oj o hoj ho heq
+        subst this
+        exact hdisj j hiE hj
+      have : ignoreOf c' o = ignoreOf h.cells o := by
+        unfold ignoreOf; rw [hpush.2 o.cell hfree]
+      rw [this]
+
+/-- **ws_frame.**  `x.leave_whitespace()` / `x.ignore_whitespace()` do not change how any expression parses that does
+    not contain `x` itself: the sub-expressions are copied before they are changed, at every level.
+    All inputs, locations, flags, fuels. -/
+theorem ws_frame (dw : List Char) (v : Bool) (fuel : Nat) (h h' : Heap) (x : Nat)
+    (hop : wsOp dw v fuel h x = some h') (hinv : Inv h)
+    (E : Nat → Prop) (hin : ∀ i, E i → i < h.objs.length)
+    (hclosed : ∀ i nd, E i → h.resolve[i]? = some nd → ∀ c ∈ nd.children, E c)
+    (hx : ¬ E x)
+    (inp : List Char) (f i : Nat) (hi : E i) (loc : Nat) (a c : Bool) :
+    parse h'.resolve inp f i loc a c = parse h.resolve inp f i loc a c := by
+  obtain ⟨_, _, ⟨nc, hcells⟩, hkeep⟩ := wsOp_spec dw v fuel h x h' hinv hop
+  refine agree_on_closed h.resolve _ E ?_ (fun i hi => by unfold Heap.resolve resolveWith; simpa using hin i hi)
+    hclosed inp f i hi loc a c
+  intro i hiE
+  rw [resolve_get, resolve_get, hkeep i (hin i hiE) (fun e => hx (e ▸ hiE))]
+  cases ho : h.objs[i]? with
+  | none => rfl
+  | some o =>
+    simp only [Option.map_some, Option.some.injEq]
+    have : ignoreOf h'.cells o = ignoreOf h.cells o := by
+      unfold ignoreOf; rw [hcells, List.getElem?_append_left (hinv.1 i o ho)]
+    rw [this]
+
+/-- **copy_frame.**  `copy()` (also `expr()`, and the copying half of `expr('name')` / `set_results_name`) does not
+    change how any existing expression parses, returns a new element, and keeps the invariant of `ignore_frame`. -/
+theorem copy_frame (dw : List Char) (fuel : Nat) (h h' : Heap) (x j : Nat)
+    (hop : copyOp dw fuel h x = some (h', j)) (hinv : Inv h)
+    (E : Nat → Prop) (hin : ∀ i, E i → i < h.objs.length)
+    (hclosed : ∀ i nd, E i → h.resolve[i]? = some nd → ∀ c ∈ nd.children, E c)
+    (inp : List Char) (f i : Nat) (hi : E i) (loc : Nat) (a c : Bool) :
+    Inv h' ∧ h.objs.length ≤ j ∧ parse h'.resolve inp f i loc a c = parse h.resolve inp f i loc a c := by
+  obtain ⟨hinv', hext, hj, _⟩ := copyOp_spec dw fuel h x h' j hinv hop
+  refine ⟨hinv', hj, ?_⟩
+  refine agree_on_closed h.resolve _ E ?_ (fun i hi => by unfold Heap.resolve resolveWith; simpa using hin i hi)
+    hclosed inp f i hi loc a c
+  intro i hiE
+  rw [resolve_get, resolve_get, hext.getObj (hin i hiE)]
+  cases ho : h.objs[i]? with
+  | none => rfl
+  | some o =>
+    simp only [Option.map_some, Option.some.injEq]
+    have : ignoreOf h'.cells o = ignoreOf h.cells o := by
+      unfold ignoreOf; rw [hext.getCell (hinv.1 i o ho)]
+    rw [this]
+
+/-- **what the driver's verdict means.**  When `heapMatch m r n …` accepts the heap `r` extracted from the live
+    objects after a real call as the model's result `m`, every element that existed before the call (ids `< n`)
+    parses in the real heap exactly as in the model's: all inputs, locations, flags, fuels. -/
+theorem heapMatch_parse_eq (m r : Heap) (n : Nat) (changed : List Nat) (seeds : List (Nat × Nat))
+    (hm : heapMatch m r n changed seeds = true) (i : Nat) (hi : i < n)
+    (s : List Char) (f loc : Nat) (a c : Bool) :
+    parse m.resolve s f i loc a c = parse r.resolve s f i loc a c := by
+  simp only [heapMatch, Bool.and_eq_true] at hm
+  exact sim_parse_eq _ _ _ hm.2 s f i i
+    (List.mem_append_right _ (List.mem_map.mpr ⟨i, List.mem_range.mpr hi, rfl⟩)) loc a c
+
+/-! ### witnesses: the hypotheses are needed, and they are satisfiable -/
+
+def mkObj (k : Kind) (skip : Bool) (cell : Nat) : Obj :=
+  { node := mkNode k skip dw, cell := cell, copyDflt := true, adjacent := false }
+
+/-- 0 = 'a', 1 = 'b', 2 = And[0, 1], 3 = Group(2), 4 = Suppress(5), 5 = '#': every element owns its list object -/
+def exH : Heap :=
+  { objs := [mkObj (.lit1 'a') true 0, mkObj (.lit1 'b') true 1, mkObj (.and [0, 1]) true 2, mkObj (.group 2) true 3,
+             mkObj (.suppress 5) true 4, mkObj (.lit1 '#') true 5],
+    cells := [[], [], [], [], [], []] }
+
+example : invCheck exH = true := by decide
+
+/-- non-vacuity of `ignore_frame`: `(a + b).ignore('#')` pushes the ignorable into `a` and `b` (footprint {2, 0, 1});
+    the comment `'#'` itself (E = {5}) is outside -/
+example : (exH.ignore 5 2 4).map (·.cells) = some [[4], [4], [4], [], [], []] := by decide
+
+/-- non-vacuity of `ws_frame`: `(a + b).leave_whitespace()` rewrites element 2 only and allocates copies of `a`, `b` -/
+example : ((wsOp dw false 5 exH 2).map (fun h => (h.objs.take 2 == exH.objs.take 2, h.objs.length, invCheck h))) =
+    some (true, 8, true) := by decide
+
+/-- non-vacuity of `ignore_frame` on `exH`: `(a + b).ignore('#')`, footprint D = {2, 0, 1}; the expression 5 (= '#',
+    E = {5}) parses as before, whatever the input -/
+example (h' : Heap) (hop : exH.ignore 5 2 4 = some h') (inp : List Char) (f loc : Nat) (a c : Bool) :
+    parse h'.resolve inp f 5 loc a c = parse exH.resolve inp f 5 loc a c := by
+  refine ignore_frame exH h' 5 2 4 hop (invCheck_sound exH (by decide)).2 (fun i => i = 2 ∨ i = 0 ∨ i = 1) ?_
+    (Or.inl rfl) (fun i => i = 5) ?_ ?_ ?_ inp f 5 rfl loc a c
+  · intro i o hi ho k hk
+    rcases hi with rfl | rfl | rfl <;> simp [exH, mkObj, mkNode] at ho <;> subst ho <;> simp [sub] at hk
+    rcases hk with rfl | rfl <;> simp
+  · intro i hi; subst hi; decide
+  · intro i nd hi hnd k hk
+    subst hi
+    simp [Heap.resolve, resolveWith, exH, mkObj, mkNode, ignoreOf] at hnd
+    subst hnd
+    simp [Node.children, Kind.children] at hk
+  · intro i hi hD; subst hi; rcases hD with h | h | h <;> cases h
+
+/-- non-vacuity of `ws_frame` on `exH`: `(a + b).leave_whitespace()` (x = 2) leaves `a` (E = {0}) alone -/
+example (h' : Heap) (hop : wsOp dw false 5 exH 2 = some h') (inp : List Char) (f loc : Nat) (a c : Bool) :
+    parse h'.resolve inp f 0 loc a c = parse exH.resolve inp f 0 loc a c := by
+  refine ws_frame dw false 5 exH h' 2 hop (invCheck_sound exH (by decide)) (fun i => i = 0) ?_ ?_ (by decide)
+    inp f 0 rfl loc a c
+  · intro i hi; subst hi; decide
+  · intro i nd hi hnd k hk
+    subst hi
+    simp [Heap.resolve, resolveWith, exH, mkObj, mkNode, ignoreOf] at hnd
+    subst hnd
+    simp [Node.children, Kind.children] at hk
+/-- **the invariant is needed** (the shape of an aliasing `copy()`): 0 = 'a' and its "copy" 1 hold the SAME list
+    object; `ignore` on the copy then changes the original, although the original is not reachable from the copy:
+    before, 'a' fails on "#a"; after, it matches. -/
+def exAlias : Heap :=
+  { objs := [mkObj (.lit1 'a') true 0, mkObj (.lit1 'a') true 0, mkObj (.suppress 3) true 1, mkObj (.lit1 '#') true 2],
+    cells := [[], [], []] }
+
+theorem alias_breaks_ignore_frame :
+    invCheck exAlias = false ∧
+    (parse exAlias.resolve ['#', 'a'] 8 0 0 true true).cls = 1 ∧
+    ((exAlias.ignore 4 1 2).map (fun h => (parse h.resolve ['#', 'a'] 8 0 0 true true).cls)) = some 0 := by
+  decide
+
+/-- **a copy of a Group / Opt / Forward / … shares its contained expression with the original** (`ParserElement.copy`
+    is shallow, only And/MatchFirst/Or copy their children): `c = Group(a + b).copy(); c.ignore('#')` changes how the
+    ORIGINAL Group parses ("a#b": fails before, matches after) although every element owns its list object.
+    This is the behaviour of the unchanged code (replayed on it by the harness: candidate finding
+    `enhance_copy_shares_child`); it is why `ignore_frame` asks for disjoint object graphs. -/
+theorem enhance_copy_shares_child :
+    (parse exH.resolve ['a', '#', 'b'] 10 3 0 true true).cls = 1 ∧
+    ((copyOp dw 3 exH 3).bind (fun r => (r.1.ignore 6 r.2 4).map (fun h =>
+      (invCheck r.1, r.2, (parse h.resolve ['a', '#', 'b'] 10 3 0 true true).cls)))) = some (true, 6, 0) := by
+  decide
+
+end PP.Heap
+
